@@ -14,18 +14,40 @@ type level struct {
 	via, form, name string
 	off             int
 	pre             []string
+	file            int // file the activation's code is in (0 = the program, 1 = the pre-statement eval source "1", 2.. = eval-level sources)
 }
 
 type progGen struct {
 	r      *h.Rng
-	b      strings.Builder
-	exotic bool // padding may contain lone CR, LS, PS
-	n      int  // fresh-name counter
+	bufs   []*strings.Builder // stack of sources being written: the program, then nested eval sources
+	cur    []int              // file index of each buffer on the stack
+	files  []string           // finished sources by file index
+	exotic bool               // padding may contain lone CR, LS, PS
+	n      int                // fresh-name counter
 }
 
-func (g *progGen) idx() int { return g.b.Len() + 1 } // file.Idx of the next byte written (base 1)
+func (g *progGen) top() *strings.Builder { return g.bufs[len(g.bufs)-1] }
+func (g *progGen) curFile() int          { return g.cur[len(g.cur)-1] }
+func (g *progGen) idx() int              { return g.top().Len() + 1 } // file.Idx of the next byte written (base 1)
+func (g *progGen) w(s string)            { g.top().WriteString(s) }
 
-func (g *progGen) w(s string) { g.b.WriteString(s) }
+// pushFile starts a new (eval) source and returns its file index.
+func (g *progGen) pushFile() int {
+	k := len(g.files)
+	g.files = append(g.files, "")
+	g.bufs = append(g.bufs, &strings.Builder{})
+	g.cur = append(g.cur, k)
+	return k
+}
+
+// popFile finishes the innermost source and returns its text.
+func (g *progGen) popFile() string {
+	src := g.top().String()
+	g.files[g.curFile()] = src
+	g.bufs = g.bufs[:len(g.bufs)-1]
+	g.cur = g.cur[:len(g.cur)-1]
+	return src
+}
 
 var plainPads = []string{" ", "  ", "\n", "\n  ", "\t", " \n\n ", "\r\n", "\r\n\t", "/* c */ ", "// c\n", "/* é世 */", "/*\n*/"}
 var exoticPads = []string{"\r", "\u2028", "\u2029", "\r\r", "\n\r", "/*\r*/", "// c\u2028", " \r ", "\u2029 \u2028", "\r \n", "/*\u2028*/ "}
@@ -112,6 +134,28 @@ func (g *progGen) body(levels []*level, i int, sh shape, raise func(g *progGen))
 	fn := func(name string) { fnx(name, false) }
 	fnDecl := func(name string) { fnx(name, true) }
 	preStmts := func() { lv.pre = g.pres(!sh.recordedOnly); g.pad() }
+	cf := g.curFile() // functions written here belong to the source currently being written
+	if g.r.Chance(9) {
+		// the next activation is eval code: direct (always a listed deviation) or indirect through `ev` (= eval)
+		direct := !sh.recordedOnly && g.r.Bool()
+		preStmts()
+		off := g.idx()
+		if direct {
+			g.w("eval(")
+		} else {
+			g.w("ev(")
+		}
+		k := g.pushFile()
+		inner()
+		src := g.popFile()
+		g.w(jsStr(src) + ");")
+		if direct {
+			*lv = level{"ed", "id", "", off, lv.pre, k}
+		} else {
+			*lv = level{"ei", "id", "", off, lv.pre, k}
+		}
+		return
+	}
 	pick := g.r.Intn(100)
 	if sh.recordedOnly {
 		pick = g.r.Intn(70)
@@ -121,7 +165,7 @@ func (g *progGen) body(levels []*level, i int, sh shape, raise func(g *progGen))
 		n := g.fresh("f")
 		fnDecl(n)
 		preStmts()
-		*lv = level{"d", "id", n, g.idx(), lv.pre}
+		*lv = level{"d", "id", n, g.idx(), lv.pre, cf}
 		g.w(n + "();")
 	case pick < 16: // anonymous function in a variable; sometimes parenthesised callee
 		n := g.fresh("v")
@@ -131,10 +175,10 @@ func (g *progGen) body(levels []*level, i int, sh shape, raise func(g *progGen))
 		preStmts()
 		if g.r.Chance(30) {
 			g.w("(")
-			*lv = level{"d", "id", "", g.idx(), lv.pre}
+			*lv = level{"d", "id", "", g.idx(), lv.pre, cf}
 			g.w(n + ")();")
 		} else {
-			*lv = level{"d", "id", "", g.idx(), lv.pre}
+			*lv = level{"d", "id", "", g.idx(), lv.pre, cf}
 			g.w(n + "();")
 		}
 	case pick < 26: // method, dot / bracket callee; anonymous or named function expression
@@ -147,10 +191,10 @@ func (g *progGen) body(levels []*level, i int, sh shape, raise func(g *progGen))
 		g.w("};")
 		preStmts()
 		if g.r.Bool() {
-			*lv = level{"d", "dot", name, g.idx(), lv.pre}
+			*lv = level{"d", "dot", name, g.idx(), lv.pre, cf}
 			g.w(o + ".m();")
 		} else {
-			*lv = level{"d", "brk", name, g.idx(), lv.pre}
+			*lv = level{"d", "brk", name, g.idx(), lv.pre, cf}
 			g.w(o + "[\"m\"]();")
 		}
 	case pick < 36: // constructor
@@ -159,7 +203,7 @@ func (g *progGen) body(levels []*level, i int, sh shape, raise func(g *progGen))
 		preStmts()
 		if g.r.Chance(70) {
 			g.w("new ")
-			*lv = level{"n", "id", n, g.idx(), lv.pre}
+			*lv = level{"n", "id", n, g.idx(), lv.pre, cf}
 			g.w(n + "();")
 		} else {
 			o := g.fresh("o")
@@ -167,10 +211,10 @@ func (g *progGen) body(levels []*level, i int, sh shape, raise func(g *progGen))
 			g.pad()
 			g.w("new ")
 			if g.r.Bool() {
-				*lv = level{"n", "dot", n, g.idx(), lv.pre}
+				*lv = level{"n", "dot", n, g.idx(), lv.pre, cf}
 				g.w(o + ".k();")
 			} else {
-				*lv = level{"n", "brk", n, g.idx(), lv.pre}
+				*lv = level{"n", "brk", n, g.idx(), lv.pre, cf}
 				g.w(o + "[\"k\"]();")
 			}
 		}
@@ -182,7 +226,7 @@ func (g *progGen) body(levels []*level, i int, sh shape, raise func(g *progGen))
 		}
 		preStmts()
 		form := "dot"
-		*lv = level{"v:" + nat.name, form, name, g.idx(), lv.pre}
+		*lv = level{"v:" + nat.name, form, name, g.idx(), lv.pre, cf}
 		g.w(nat.recv + "." + nat.name + "(" + nat.extra)
 		fn(name)
 		g.w(");")
@@ -194,21 +238,21 @@ func (g *progGen) body(levels []*level, i int, sh shape, raise func(g *progGen))
 		if g.r.Bool() {
 			m = "apply"
 		}
-		*lv = level{"v:" + m, "dot", n, g.idx(), lv.pre}
+		*lv = level{"v:" + m, "dot", n, g.idx(), lv.pre, cf}
 		g.w(n + "." + m + "(null);")
 	case pick < 64: // bound function
 		n, bn := g.fresh("f"), g.fresh("b")
 		fnDecl(n)
 		g.w(" var " + bn + " = " + n + ".bind(null);")
 		preStmts()
-		*lv = level{"b", "id", n, g.idx(), lv.pre}
+		*lv = level{"b", "id", n, g.idx(), lv.pre, cf}
 		g.w(bn + "();")
 	case pick < 70: // identifier callee that is a bound native: ap() = f.call() (bound passthrough into the native `call`, which calls f)
 		n, ap := g.fresh("f"), g.fresh("ap")
 		fnDecl(n)
 		g.w(" var " + ap + " = " + n + ".call.bind(" + n + ");")
 		preStmts()
-		*lv = level{"v:call", "id", n, g.idx(), lv.pre}
+		*lv = level{"v:call", "id", n, g.idx(), lv.pre, cf}
 		g.w(ap + "();")
 	case pick < 80: // immediately invoked function expression: callee is a function literal
 		name := ""
@@ -219,12 +263,12 @@ func (g *progGen) body(levels []*level, i int, sh shape, raise func(g *progGen))
 		if g.r.Chance(25) {
 			g.w("new ")
 			g.w("(")
-			*lv = level{"n", "oth", name, g.idx(), lv.pre}
+			*lv = level{"n", "oth", name, g.idx(), lv.pre, cf}
 			fn(name)
 			g.w(")();")
 		} else {
 			g.w("(")
-			*lv = level{"d", "oth", name, g.idx(), lv.pre}
+			*lv = level{"d", "oth", name, g.idx(), lv.pre, cf}
 			fn(name)
 			g.w(")();")
 		}
@@ -235,7 +279,7 @@ func (g *progGen) body(levels []*level, i int, sh shape, raise func(g *progGen))
 		g.w("; };")
 		preStmts()
 		lv.pre = append(lv.pre, fmt.Sprintf("c:id:%d", g.idx()))
-		*lv = level{"d", "oth", "", g.idx(), lv.pre}
+		*lv = level{"d", "oth", "", g.idx(), lv.pre, cf}
 		g.w(mk + "()();")
 	case pick < 90: // sequence-expression callee
 		n := g.fresh("v")
@@ -243,7 +287,7 @@ func (g *progGen) body(levels []*level, i int, sh shape, raise func(g *progGen))
 		fn("")
 		g.w(";")
 		preStmts()
-		*lv = level{"d", "oth", "", g.idx(), lv.pre}
+		*lv = level{"d", "oth", "", g.idx(), lv.pre, cf}
 		g.w("(0, " + n + ")();")
 	default: // implicit calls: getter, toString, valueOf
 		o := g.fresh("o")
@@ -253,21 +297,21 @@ func (g *progGen) body(levels []*level, i int, sh shape, raise func(g *progGen))
 			inner()
 			g.w("}};")
 			preStmts()
-			*lv = level{"i", "oth", "", g.idx(), lv.pre}
+			*lv = level{"i", "oth", "", g.idx(), lv.pre, cf}
 			g.w(o + ".x;")
 		case 1:
 			g.w("var " + o + " = {toString: ")
 			fn("")
 			g.w("};")
 			preStmts()
-			*lv = level{"i", "oth", "", g.idx(), lv.pre}
+			*lv = level{"i", "oth", "", g.idx(), lv.pre, cf}
 			g.w("\"\" + " + o + ";")
 		default:
 			g.w("var " + o + " = {valueOf: ")
 			fn("")
 			g.w("};")
 			preStmts()
-			*lv = level{"i", "oth", "", g.idx(), lv.pre}
+			*lv = level{"i", "oth", "", g.idx(), lv.pre, cf}
 			g.w("+" + o + ";")
 		}
 	}
@@ -278,7 +322,7 @@ type raiser func(g *progGen, sh shape) (*level, string)
 
 func nativeRaise(recv, name, args string, form string) raiser {
 	return func(g *progGen, sh shape) (*level, string) {
-		lv := &level{"N", form, name, g.idx(), nil}
+		lv := &level{"N", form, name, g.idx(), nil, 0}
 		g.w(recv + "(" + args + ");")
 		return lv, fmt.Sprintf("bare:%d", lv.off)
 	}
@@ -386,14 +430,16 @@ func levelTok(lv *level) string {
 	if len(lv.pre) > 0 {
 		pre = strings.Join(lv.pre, "+")
 	}
-	return fmt.Sprintf("%s,%s,%s,%d,%s", lv.via, lv.form, dash(lv.name), lv.off, pre)
+	return fmt.Sprintf("%s,%s,%s,%d,%s,%d", lv.via, lv.form, dash(lv.name), lv.off, pre, lv.file)
 }
 
 var fileNames = []string{"", "", "a.js", "lib/x.js", "t_1.js"}
 
 // genTrace produces one trace request.
 func genTrace(r *h.Rng, depth int, limit int, sh shape, exotic bool, kind string) string {
-	g := &progGen{r: r, exotic: exotic}
+	g := &progGen{r: r, exotic: exotic, files: []string{"", "1"}}
+	g.bufs = []*strings.Builder{{}}
+	g.cur = []int{0}
 	levels := make([]*level, depth)
 	for i := range levels {
 		levels[i] = &level{}
@@ -427,7 +473,12 @@ func genTrace(r *h.Rng, depth int, limit int, sh shape, exotic bool, kind string
 		lt = strings.Join(toks, ";")
 	}
 	fname := fileNames[r.Intn(len(fileNames))]
-	return fmt.Sprintf("trace %d %s %s %s %s %s %s", limit, hx(fname), hx(g.b.String()), lt, pre, raiseTok, kind)
+	g.files[0] = g.top().String()
+	var srcs []string
+	for _, f := range g.files {
+		srcs = append(srcs, hx(f))
+	}
+	return fmt.Sprintf("trace %d %s %s %s %s %s %s", limit, hx(fname), strings.Join(srcs, "/"), lt, pre, raiseTok, kind)
 }
 
 // ---------------------------------------------------------------- syntax-error programs
@@ -589,6 +640,14 @@ func genAll(c *h.Ctx) {
 		} else if sh.recordedOnly {
 			key = "trace:recorded-callees-exotic-terminators"
 		}
-		c.Add(genTrace(r, depth, limit, sh, exotic, kind), key, "trace:kind:"+kind, fmt.Sprintf("trace:depth:%d", depth), fmt.Sprintf("trace:limit:%d", limit))
+		line := genTrace(r, depth, limit, sh, exotic, kind)
+		keys := []string{key, "trace:kind:" + kind, fmt.Sprintf("trace:depth:%d", depth), fmt.Sprintf("trace:limit:%d", limit)}
+		if strings.Contains(line, "ed,id,-,") {
+			keys = append(keys, "trace:through-direct-eval")
+		}
+		if strings.Contains(line, "ei,id,-,") {
+			keys = append(keys, "trace:through-indirect-eval")
+		}
+		c.Add(line, keys...)
 	}
 }
